@@ -2,10 +2,13 @@
 
 from __future__ import annotations
 
+from itertools import repeat
 from typing import TYPE_CHECKING
 from typing import Self
 
 from pest.grammar import Expression
+
+from .sequence import Sequence
 
 if TYPE_CHECKING:
     from pest.grammar.codegen.builder import Builder
@@ -168,41 +171,25 @@ class RepeatOnce(Expression):
     This corresponds to the `+` operator in pest.
     """
 
-    __slots__ = ("expression",)
+    __slots__ = ("expression", "_unrolled")
 
     def __init__(self, expression: Expression):
         super().__init__(None)
         self.expression = expression
+        self._unrolled: Expression | None = None
 
     def __str__(self) -> str:
         return f"{self.tag_str()}{self.expression}+"
 
     def parse(self, state: ParserState, pairs: list[Pair]) -> bool:
-        state.checkpoint()
-        children: list[Pair] = []
-        matched = self.expression.parse(state, children)
+        # `e+` is `e ~ e*`, including where implicit trivia is matched.
+        return self.unrolled().parse(state, pairs)
 
-        if not matched:
-            state.restore()
-            return False
-
-        state.ok()
-        pairs.extend(children)
-        children.clear()
-
-        while True:
-            state.checkpoint()
-            state.parse_trivia(children)
-            matched = self.expression.parse(state, children)
-            if not matched:
-                state.restore()
-                break
-
-            state.ok()
-            pairs.extend(children)
-            children.clear()
-
-        return True
+    def unrolled(self) -> Expression:
+        """Return the sequence this repetition is shorthand for."""
+        if self._unrolled is None:
+            self._unrolled = Sequence(self.expression, Repeat(self.expression))
+        return self._unrolled
 
     def generate(self, gen: Builder, matched_var: str, pairs_var: str) -> None:
         """Emit Python code for repeat one or more times."""
@@ -276,57 +263,27 @@ class RepeatExact(Expression):
     __slots__ = (
         "expression",
         "number",
+        "_unrolled",
     )
 
     def __init__(self, expression: Expression, number: int):
         super().__init__(None)
         self.expression = expression
         self.number = number
+        self._unrolled: Expression | None = None
 
     def __str__(self) -> str:
         return f"{self.expression}{{{self.number}}}"
 
     def parse(self, state: ParserState, pairs: list[Pair]) -> bool:
-        if self.number == 0:
-            return True
+        # `e{n}` is `e ~ e ~ ... ~ e`, including where implicit trivia is matched.
+        return self.unrolled().parse(state, pairs)
 
-        children: list[Pair] = []
-        accumulator: list[Pair] = []
-        match_count = 0
-        state.checkpoint()
-
-        matched = self.expression.parse(state, accumulator)
-
-        if not matched:
-            state.restore()
-            return False
-
-        match_count += 1
-
-        while True:
-            state.checkpoint()
-            state.parse_trivia(children)
-            matched = self.expression.parse(state, children)
-
-            if not matched:
-                state.restore()
-                break
-
-            match_count += 1
-            state.ok()
-            accumulator.extend(children)
-            children.clear()
-
-            if match_count == self.number:
-                break
-
-        if match_count == self.number:
-            pairs.extend(accumulator)
-            state.ok()
-            return True
-
-        state.restore()
-        return False
+    def unrolled(self) -> Expression:
+        """Return the sequence this repetition is shorthand for."""
+        if self._unrolled is None:
+            self._unrolled = Sequence(*repeat(self.expression, self.number))
+        return self._unrolled
 
     def generate(self, gen: Builder, matched_var: str, pairs_var: str) -> None:
         """Emit Python code for a bounded repetition expression (E{num})."""
@@ -389,51 +346,29 @@ class RepeatMin(Expression):
     __slots__ = (
         "expression",
         "number",
+        "_unrolled",
     )
 
     def __init__(self, expression: Expression, number: int):
         super().__init__(None)
         self.expression = expression
         self.number = number
+        self._unrolled: Expression | None = None
 
     def __str__(self) -> str:
         return f"{self.expression}{{{self.number},}}"
 
     def parse(self, state: ParserState, pairs: list[Pair]) -> bool:
-        children: list[Pair] = []
-        accumulator: list[Pair] = []
-        match_count = 0
-        state.checkpoint()
+        # `e{n,}` is `e ~ ... ~ e ~ e*`, including where implicit trivia is matched.
+        return self.unrolled().parse(state, pairs)
 
-        matched = self.expression.parse(state, accumulator)
-
-        if not matched:
-            state.restore()
-            return False
-
-        match_count += 1
-
-        while True:
-            state.checkpoint()
-            state.parse_trivia(children)
-            matched = self.expression.parse(state, children)
-
-            if not matched:
-                state.restore()
-                break
-
-            match_count += 1
-            state.ok()
-            accumulator.extend(children)
-            children.clear()
-
-        if match_count >= self.number:
-            pairs.extend(accumulator)
-            state.ok()
-            return True
-
-        state.restore()
-        return False
+    def unrolled(self) -> Expression:
+        """Return the sequence this repetition is shorthand for."""
+        if self._unrolled is None:
+            self._unrolled = Sequence(
+                *repeat(self.expression, self.number), Repeat(self.expression)
+            )
+        return self._unrolled
 
     def generate(self, gen: Builder, matched_var: str, pairs_var: str) -> None:
         """Emit Python code for a bounded repetition expression (E{min,})."""
@@ -493,57 +428,29 @@ class RepeatMax(Expression):
     __slots__ = (
         "expression",
         "number",
+        "_unrolled",
     )
 
     def __init__(self, expression: Expression, number: int):
         super().__init__(None)
         self.expression = expression
         self.number = number
+        self._unrolled: Expression | None = None
 
     def __str__(self) -> str:
         return f"{self.expression}{{,{self.number}}}"
 
     def parse(self, state: ParserState, pairs: list[Pair]) -> bool:
-        if self.number == 0:
-            return True
+        # `e{,n}` is `e? ~ ... ~ e?`, including where implicit trivia is matched.
+        return self.unrolled().parse(state, pairs)
 
-        children: list[Pair] = []
-        accumulator: list[Pair] = []
-        match_count = 0
-        state.checkpoint()
-
-        matched = self.expression.parse(state, accumulator)
-
-        if not matched:
-            state.restore()
-            return False
-
-        match_count += 1
-
-        while True:
-            state.checkpoint()
-            state.parse_trivia(children)
-            matched = self.expression.parse(state, children)
-
-            if not matched:
-                state.restore()
-                break
-
-            match_count += 1
-            state.ok()
-            accumulator.extend(children)
-            children.clear()
-
-            if match_count == self.number:
-                break
-
-        if match_count <= self.number:
-            pairs.extend(accumulator)
-            state.ok()
-            return True
-
-        state.restore()
-        return False
+    def unrolled(self) -> Expression:
+        """Return the sequence this repetition is shorthand for."""
+        if self._unrolled is None:
+            self._unrolled = Sequence(
+                *repeat(Optional(self.expression), self.number)
+            )
+        return self._unrolled
 
     def generate(self, gen: Builder, matched_var: str, pairs_var: str) -> None:
         """Emit Python code for a bounded repetition expression (E{,max})."""
@@ -597,6 +504,7 @@ class RepeatMinMax(Expression):
         "expression",
         "min",
         "max",
+        "_unrolled",
     )
 
     def __init__(self, expression: Expression, min_: int, max_: int):
@@ -604,48 +512,24 @@ class RepeatMinMax(Expression):
         self.expression = expression
         self.min = min_
         self.max = max_
+        self._unrolled: Expression | None = None
 
     def __str__(self) -> str:
         return f"{self.expression}{{{self.min}, {self.max}}}"
 
     def parse(self, state: ParserState, pairs: list[Pair]) -> bool:
-        children: list[Pair] = []
-        accumulator: list[Pair] = []
-        match_count = 0
-        state.checkpoint()
+        # `e{m,n}` is `e ~ ... ~ e ~ e? ~ ... ~ e?`, including where implicit
+        # trivia is matched.
+        return self.unrolled().parse(state, pairs)
 
-        matched = self.expression.parse(state, accumulator)
-
-        if not matched:
-            state.restore()
-            return False
-
-        match_count += 1
-
-        while True:
-            state.checkpoint()
-            state.parse_trivia(children)
-            matched = self.expression.parse(state, children)
-
-            if not matched:
-                state.restore()
-                break
-
-            match_count += 1
-            state.ok()
-            accumulator.extend(children)
-            children.clear()
-
-            if match_count == self.max:
-                break
-
-        if match_count >= self.min and match_count <= self.max:
-            pairs.extend(accumulator)
-            state.ok()
-            return True
-
-        state.restore()
-        return False
+    def unrolled(self) -> Expression:
+        """Return the sequence this repetition is shorthand for."""
+        if self._unrolled is None:
+            self._unrolled = Sequence(
+                *repeat(self.expression, self.min),
+                *repeat(Optional(self.expression), self.max - self.min),
+            )
+        return self._unrolled
 
     def generate(self, gen: Builder, matched_var: str, pairs_var: str) -> None:
         """Emit Python code for a bounded repetition expression (E{min,max})."""
